@@ -5,10 +5,11 @@
    guard and body that are pointwise equal to the model's), so that renamed locals, `j = j - 1` for `j -= 1`,
    a different order of the loop-carried variables etc. still go through; every script also accepts the
    alias a refused function is emitted as. *)
-From Coq Require Import List ZArith Bool Lia.
+From Coq Require Import List ZArith QArith Bool Lia.
 From DV Require Import Base.PyList Base.C07_Num Model.C07_Spea2 Model.C07_RefPoints Model.C07_GenRt Gen.C07_gen
-                       Proofs.C07_SelectGen.
+                       Proofs.C07_SelectGen Proofs.C07_Spea2.
 Import ListNotations.
+Local Open Scope nat_scope.
 
 Section Equiv.
 Context {T : Type} (Op : numops T).
@@ -77,6 +78,108 @@ Proof.
       (match goal with |- context [(?a <? ?b)%Z] => destruct (a <? b)%Z end); apply IH.
 Qed.
 
+(* ---- selSPEA2 (lines 725-743 and the branch structure; the two archive branches are separate units) ---- *)
+Lemma pair_step_lengths w st p :
+  length (fst (pair_step Op w st p)) = length (fst st) /\ length (snd (pair_step Op w st p)) = length (snd st).
+Proof.
+  destruct st as [S_ D], p as [i j]. unfold pair_step, incr, push.
+  destruct (dominates Op (nth i w []) (nth j w [])); [cbn; now rewrite !set_nth_length|].
+  destruct (dominates Op (nth j w []) (nth i w [])); cbn; now rewrite ?set_nth_length.
+Qed.
+
+Lemma phase1_lengths w N : length (fst (phase1 Op w N)) = N /\ length (snd (phase1 Op w N)) = N.
+Proof.
+  unfold phase1.
+  assert (G : forall ps st, length (fst (fold_left (pair_step Op w) ps st)) = length (fst st) /\
+                            length (snd (fold_left (pair_step Op w) ps st)) = length (snd st)).
+  { induction ps as [|p ps IH]; intro st; [split; reflexivity|]. cbn [fold_left].
+    destruct (IH (pair_step Op w st p)) as [A B]. destruct (pair_step_lengths w st p) as [C D]. split; congruence. }
+  destruct (G (pairs N) (repeat 0%nat N, repeat [] N)) as [A B]. cbn [fst snd] in *. rewrite repeat_length in *. auto.
+Qed.
+
+Lemma pair_eta {A B} (p : A * B) : (let '(a, b) := p in (a, b)) = p.
+Proof. now destruct p. Qed.
+Lemma map_const_seq {A} (c : A) s n : map (fun _ => c) (seq s n) = repeat c n.
+Proof. revert s. induction n as [|n IH]; intro s; [reflexivity|]. cbn. now rewrite IH. Qed.
+Lemma nth_map_snd (inds : list (list T * list T)) i : nth i (map snd inds) [] = snd (nth i inds (@nil T, @nil T)).
+Proof. exact (map_nth snd inds (@nil T, @nil T) i). Qed.
+
+(* the two archive branches: regenerated units or aliases of the model's branch functions *)
+Theorem gen_selSPEA2_fill_eq inds k N L K fits chosen ds :
+  gen_selSPEA2_fill Op inds k N L K fits chosen ds = fill_branch Op (map fst inds) N k fits chosen ds.
+Proof. unfold gen_selSPEA2_fill. reflexivity. Qed.
+
+Theorem gen_selSPEA2_trunc_eq inds k L chosen :
+  gen_selSPEA2_trunc Op inds k L chosen = trunc_branch Op (map fst inds) k chosen.
+Proof. unfold gen_selSPEA2_trunc. reflexivity. Qed.
+
+Ltac dd := (* the dominance tests of one pair *)
+  repeat match goal with |- context [dominates Op ?a ?b] => destruct (dominates Op a b) end.
+
+(* for i, ind_i in enumerate(individuals): for j, ind_j in enumerate(individuals[i+1:], i+1): ...
+   = the fold of pair_step over pairs N; generic in how the body is written: it only has to compute
+   pair_step on every pair i < j < N *)
+Ltac spea2_phase1 inds N w :=
+  match goal with |- context [for_ (enum 0 inds) ?F ?s0] =>
+    let P1 := fresh "P1" in
+    assert (P1 : for_ (enum 0 inds) F s0 = phase1 Op w N) by
+     (rewrite (for_enum (@nil T, @nil T)); rewrite ?map_const_seq; unfold phase1;
+      change (fold_left (pair_step Op w) (pairs N)) with (for_ (pairs N) (fun p st => pair_step Op w st p));
+      unfold pairs; rewrite for_flat_map; fold N;
+      apply for_ext; (let i := fresh "i" in let st := fresh "st" in let Hi := fresh "Hi" in
+      intros i st Hi; apply in_seq in Hi;
+      cbv beta iota zeta; destruct st as [? ?]; rewrite ?pair_eta;
+      rewrite for_map, (for_enum (@nil T, @nil T)), skipn_length, ?Nat.add_1_r; fold N;
+      apply for_ext; (let j := fresh "j" in let st' := fresh "st" in let Hj := fresh "Hj" in
+      intros j st' Hj; apply in_seq in Hj;
+      cbv beta iota zeta; destruct st' as [? ?];
+      rewrite ?nth_skipn; replace (S i + (j - S i))%nat with j by lia; rewrite ?Nat.sub_0_r;
+      unfold pair_step, w; rewrite !nth_map_snd; unfold incr, push;
+      dd; rewrite ?Nat.add_1_r; reflexivity)));
+    rewrite P1; clear P1
+  end.
+
+(* for i in range(N): for j in dominating_inds[i]: fits[i] += strength_fits[j]   = raw_fits *)
+Ltac spea2_phase2 N S_ D LD :=
+  match goal with |- context [for_ (seq 0 N) ?F (repeat 0%nat N)] =>
+    let P2 := fresh "P2" in
+    assert (P2 : for_ (seq 0 N) F (repeat 0%nat N) = raw_fits S_ D) by
+     (pose (h := fun (i : nat) (a : nat) => fold_left (fun acc j => (acc + nth j S_ 0)%nat) (nth i D []) a);
+      rewrite (for_ext_inv (fun f => length f = N) _ _ (fun i f => set_nth f i (h i (nth i f 0%nat))));
+      [ rewrite (for_each_entry 0%nat h N) by apply repeat_length;
+        unfold raw_fits; rewrite (map_nth_seq _ D []), LD; apply map_ext_in;
+        (let i := fresh "i" in let Hi := fresh "Hi" in intros i Hi; apply in_seq in Hi; unfold h; now rewrite nth_repeat)
+      | apply repeat_length
+      | let i := fresh "i" in let f := fresh "f" in let Hi := fresh "Hi" in let Lf := fresh "Lf" in
+        intros i f Hi Lf; apply in_seq in Hi; cbv beta zeta; split; [|now rewrite set_nth_length];
+        unfold h; apply (for_accum_entry (nth i D []) (fun j => nth j S_ 0%nat)); lia ]);
+    rewrite P2; clear P2
+  end.
+
+Ltac spea2_main inds :=
+  let N := fresh "N" in let w := fresh "w" in let LS := fresh "LS" in let LD := fresh "LD" in
+  let S_ := fresh "S_" in let D := fresh "D" in
+  unfold gen_selSPEA2, spea2; cbv zeta; rewrite map_length;
+  set (N := length inds); set (w := map snd inds);
+  spea2_phase1 inds N w;
+  destruct (phase1_lengths w N) as [LS LD]; destruct (phase1 Op w N) as [S_ D]; cbn [fst snd] in LS, LD;
+  spea2_phase2 N S_ D LD;
+  (* chosen_indices = [i for i in range(N) if fits[i] < 1] *)
+  match goal with |- context [filter ?F (seq 0 N)] =>
+    let P3 := fresh "P3" in
+    assert (P3 : filter F (seq 0 N) = nd_indices (raw_fits S_ D)) by
+      (unfold nd_indices; replace (length (raw_fits S_ D)) with N by (unfold raw_fits; now rewrite map_length);
+       apply filter_ext; intro; reflexivity);
+    rewrite P3; clear P3 end;
+  rewrite ?pair_eta, ?gen_selSPEA2_fill_eq, ?gen_selSPEA2_trunc_eq;
+  repeat match goal with |- context [(?a <? ?b)%nat] => destruct (a <? b)%nat end; reflexivity.
+
+Theorem gen_selSPEA2_eq (inds : list (list T * list T)) (k : nat) (ds : list Z) :
+  gen_selSPEA2 Op inds k ds = spea2 Op (map fst inds) (map snd inds) k ds.
+Proof.
+  first [ solve [unfold gen_selSPEA2; reflexivity] | idtac "gen_selSPEA2: regenerated"; spea2_main inds ].
+Qed.
+
 End Equiv.
 
 (* ---- the C07 theorems about _partition / _randomizedSelect, on the regenerated definitions ---- *)
@@ -118,15 +221,52 @@ Proof.
   exact (rand_select_is_kth qx_ops qx_lt_irrefl qx_lt_trans qx_nlt_trans arr i draws Hi Hd).
 Qed.
 
+(* C07_spea2_generic on the regenerated selSPEA2: individuals = (fitness.values, fitness.wvalues) *)
+Theorem gen_spea2_spec {T} (Op : numops T) :
+  (forall x y, n_ltb Op x y = true -> n_ltb Op y x = false) ->
+  forall (inds : list (list T * list T)) k draws, dist_ok Op (map fst inds) -> (1 <= k <= length inds)%nat ->
+  let wvals := map snd inds in
+  let r := fst (gen_selSPEA2 Op inds k draws) in
+  length r = k /\ NoDup r /\ (forall i, In i r -> (i < length inds)%nat) /\
+  ((length (nd_list Op wvals) <= k)%nat -> incl (nd_list Op wvals) r) /\
+  ((k <= length (nd_list Op wvals))%nat -> incl r (nd_list Op wvals)).
+Proof.
+  intros H inds k draws Hd Hk. cbv zeta. rewrite gen_selSPEA2_eq.
+  assert (Hk' : (1 <= k <= length (map snd inds))%nat) by (now rewrite map_length).
+  generalize (spea2_spec Op H (map fst inds) (map snd inds) k draws Hd Hk'). cbv zeta. rewrite map_length. exact (fun x => x).
+Qed.
+
+(* exact instance, finite fitness values: the distance hypothesis is discharged *)
+Theorem gen_spea2_exact : forall (vq : list (list Q)) (wvals : list (list qx)) k draws,
+  length vq = length wvals -> (1 <= k <= length wvals)%nat ->
+  let r := fst (gen_selSPEA2 qx_ops (combine (map (map QF) vq) wvals) k draws) in
+  length r = k /\ NoDup r /\ (forall i, In i r -> (i < length wvals)%nat) /\
+  ((length (nd_list qx_ops wvals) <= k)%nat -> incl (nd_list qx_ops wvals) r) /\
+  ((k <= length (nd_list qx_ops wvals))%nat -> incl r (nd_list qx_ops wvals)).
+Proof.
+  intros vq wvals k draws HL Hk. cbv zeta. rewrite gen_selSPEA2_eq.
+  assert (E1 : map fst (combine (map (map QF) vq) wvals) = map (map QF) vq).
+  { clear Hk. revert wvals HL. induction vq as [|v vq IH]; intros [|w ws] HL; cbn in *; try discriminate; [reflexivity|].
+    f_equal. apply IH. congruence. }
+  assert (E2 : map snd (combine (map (map QF) vq) wvals) = wvals).
+  { clear Hk E1. revert wvals HL. induction vq as [|v vq IH]; intros [|w ws] HL; cbn in *; try discriminate; [reflexivity|].
+    f_equal. apply IH. congruence. }
+  rewrite E1, E2.
+  exact (spea2_spec qx_ops qx_ltb_asym (map (map QF) vq) wvals k draws (dist_ok_qx vq) Hk).
+Qed.
+
 Theorem source_is_model :
   (forall {T} (Op : numops T) arr b e, gen_partition Op arr b e = partition Op arr b e) /\
   (forall {T} (Op : numops T) arr b e ds,
      gen_randomizedPartition Op arr b e ds = let '(r, ds') := randint b e ds in (rand_partition Op arr b e r, ds')) /\
   (forall {T} (Op : numops T) fuel arr b e i ds,
-     gen_randomizedSelect Op fuel arr b e i ds = rand_select Op fuel arr b e i ds).
+     gen_randomizedSelect Op fuel arr b e i ds = rand_select Op fuel arr b e i ds) /\
+  (forall {T} (Op : numops T) inds k ds,
+     gen_selSPEA2 Op inds k ds = spea2 Op (map fst inds) (map snd inds) k ds).
 Proof.
-  split; [|split]; intros.
+  split; [|split; [|split]]; intros.
   - apply gen_partition_eq.
   - apply gen_randomizedPartition_eq.
   - apply gen_randomizedSelect_eq.
+  - apply gen_selSPEA2_eq.
 Qed.
